@@ -6,15 +6,18 @@
    (Gen/TablesTypes.v: with the unfixed source, where the index is never advanced, this file stops compiling).
    [bind_full] is the independently written specification of inspect.Signature.bind + apply_defaults.
 
-   Full statement of the property over whole queries, NOT proved here (only tested by the correspondence and the
-   Signature.bind oracle of harness/props/c07.py):
-     calls_normalised : follow W G e = Ok (e', t, ev) -> every call site of e' that the follower resolved to a method
-       of a class of W or to a registered function has the form Call f (bind_full sig args kws) [] [] .
-   What is proved is the part all call sites go through (the walk), for every signature and every call. *)
+   Whole queries: [calls_normalised] - the emitted tree relates to the given tree by [norm]
+   (Proofs/TypeFollowNormalised.v), a separately written relation that says what the property demands at every node:
+   typed call sites (method found on a class of the receiver's type - the type the follower computed -, registered
+   function) at any lambda nesting depth are emitted in [bind_full] form followed by the callbacks' rewrites; the
+   library's own operators keep the user's lambda and its body is normalised under the element type; a method call is
+   left alone only when no class of the receiver's type has that method with a resolvable return annotation; all
+   other nodes are rebuilt from their normalised children. *)
 From FA.Base Require Import PyAst Value.
 From FA.Gen Require Import TablesTypes.
 From FA.Model Require Import TypeDefs TypeFollow.
-From FA.Proofs Require Import TypeFollowFacts TypeFollowFill.
+From FA.Proofs Require Import TypeFollowFacts TypeFollowFill TypeFollowNormalised.
+From Coq Require Import Lia.
 
 (* for every signature with distinct parameter names and every call shape Python accepts - or rejects only because a
    required parameter is missing - the walk yields exactly Signature.bind + apply_defaults: all declared parameters
@@ -43,6 +46,19 @@ Theorem own_operators_untouched : forall (A : Type) (mk : const -> A) (dflt : co
             {| p_name := "known_types"; p_default := Some dflt |} ] [lam] kws = inl ([lam], kws).
 Proof. intros A mk. exact (own_operators_untouched_x mk). Qed.
 Print Assumptions own_operators_untouched.
+
+(* whole queries, every class table / function table / callback table / environment / expression *)
+Theorem calls_normalised : forall (W : world) (G : tenv) (e e' : expr) (t : ty) (ev : list event),
+  wf_sigs W -> follow W G e = Ok (e', t, ev) -> norm W G e e'.
+Proof. exact calls_normalised_x. Qed.
+Print Assumptions calls_normalised.
+
+(* ... and through Select / SelectMany / Where of the stream itself *)
+Theorem stream_calls_normalised : forall (W : world) op G0 item p b lam t ev,
+  wf_sigs W -> stream_op W op G0 item (Lambda [p] b) = Ok (lam, t, ev) ->
+  exists b', lam = Lambda [p] b' /\ norm W ((p, item) :: G0) b b'.
+Proof. exact stream_calls_normalised_x. Qed.
+Print Assumptions stream_calls_normalised.
 
 (* ---------- non-vacuity ---------- *)
 
@@ -99,3 +115,47 @@ Example nested_query_normalised :
              [Lambda ["e"] (Call (Attr (Name "e") "pt") [Const (CFloat "1.0"); Const (CStr "MeV")] [] [])] [] [],
         TIter TFloat, []).
 Proof. vm_compute. reflexivity. Qed.
+
+(* ---------- non-vacuity of [calls_normalised] ---------- *)
+
+Example W2_wf : wf_sigs W2.
+Proof. split; repeat constructor; cbn; intuition discriminate. Qed.
+
+(* the relation holds of the depth-2 query above (through the theorem) ... *)
+Example nested_query_in_relation :
+  let q := Call (Attr (Call (Attr (Name "e") "Jets") [] [] []) "Select")
+                [Lambda ["e"] (Call (Attr (Name "e") "pt") [] [Some "unit"] [Const (CStr "MeV")])] [] [] in
+  norm W2 [("e", TCls "Event" [])] q
+    (Call (Attr (Call (Attr (Name "e") "Jets") [Const (CStr "default")] [] []) "Select")
+          [Lambda ["e"] (Call (Attr (Name "e") "pt") [Const (CFloat "1.0"); Const (CStr "MeV")] [] [])] [] []).
+Proof. intros q. eapply calls_normalised; [exact W2_wf | vm_compute; reflexivity]. Qed.
+
+(* ... and it is not a relation that holds of anything: leaving e.Jets() as written (what the code did before
+   fixes/F09 for the second parameter, and what no fix would excuse for the first) is not in it *)
+Example unnormalised_call_rejected :
+  ~ norm W2 [("e", TCls "Event" [])] (Call (Attr (Name "e") "Jets") [] [] []) (Call (Attr (Name "e") "Jets") [] [] []).
+Proof.
+  intros H. inversion H; subst; try discriminate.
+  - (* congruence is for non-call nodes *)
+    match goal with Hc : is_call _ = false |- _ => destruct cs'; cbn in Hc; discriminate end.
+  - (* untyped callee *) contradiction.
+  - (* unknown method *)
+    match goal with Hk : ~ known _ _ _ |- _ => apply Hk end.
+    match goal with Hf : follow _ _ (Name "e") = _ |- _ => vm_compute in Hf; inversion Hf; subst end.
+    exists (TCls "Event" []), "Event", (M "Jets" [P "self" None; P "bank" (Some (CStr "default"))] (TIter (TCls "Jet" []))),
+           (TIter (TCls "Jet" [])).
+    repeat split; vm_compute; auto.
+  - (* typed: the site must be the bind_full form, which has one argument *)
+    match goal with Hf : follow _ _ (Name "e") = _ |- _ => vm_compute in Hf; inversion Hf; subst end.
+    match goal with Hi : In _ (candidates _ _) |- _ => vm_compute in Hi; destruct Hi as [<-|[]] end.
+    match goal with Hm : get_method_and_class _ _ _ = _ |- _ => vm_compute in Hm; inversion Hm; subst end.
+    match goal with Hc : complete_call _ _ _ _ _ |- _ => destruct Hc as (a2 & k2 & v2 & -> & _ & Hacc) end.
+    match goal with Hr : rewritten _ _ |- _ => apply rewritten_to_bare_method in Hr; destruct Hr as (a0 & Hr); inversion Hr; subst end.
+    repeat match goal with Hx : Forall2 _ [] _ |- _ => inversion Hx; subst; clear Hx end.
+    destruct Hacc as (Hb & _ & _).
+    + split; [vm_compute; lia|]. split; constructor.
+    + vm_compute in Hb. discriminate.
+  - (* operator: Jets is not one *)
+    match goal with Hf : follow _ _ (Name "e") = _ |- _ => vm_compute in Hf; inversion Hf; subst end.
+    match goal with Hi : In _ (candidates _ _) |- _ => vm_compute in Hi; destruct Hi as [Hi|[]]; discriminate end.
+Qed.
